@@ -130,6 +130,19 @@ def gen(rng, nrng, tier):
             A = nrng.standard_normal(pa) * 0.4
         nfft = int(nrng.integers(max(pa, qa) + 1, 40))
         yield ("arma2psd", {"A": A, "B": B, "rho": float(nrng.uniform(0.1, 3)), "T": float(10 ** nrng.uniform(-2, 2)), "nfft": nfft})
+    # long FFTs, the same NFFT requested repeatedly with shrinking / growing coefficient vectors (work buffers must not leak)
+    for nfft in ((1024, 1025) if tier == "quick" else (1024, 1025, 2048, 4096)):
+        for ln in (6, 3, 1, 4, 2, 5):
+            A = nrng.standard_normal(ln) * 0.3
+            B = nrng.standard_normal(max(1, 7 - ln)) * 0.3
+            yield ("arma2psd", {"A": A, "B": B, "rho": 1.5, "T": 2.0, "nfft": nfft})
+            yield ("arma2psd", {"A": A, "B": None, "rho": 1.0, "T": 1.0, "nfft": nfft})
+    # exactly real coefficients stored in complex arrays, odd and even NFFT
+    for i in range(12 if tier == "quick" else 100):
+        pa = int(nrng.integers(1, 6))
+        A = (nrng.standard_normal(pa) * 0.4).astype(complex)
+        B = (nrng.standard_normal(pa) * 0.4).astype(complex) if i % 2 else None
+        yield ("arma2psd", {"A": A, "B": B, "rho": 1.0, "T": 1.0, "nfft": [31, 32, 45, 64, 49, 98][i % 6]})
     m = 84 if tier == "quick" else 1200
     for i in range(m):
         cls = C.CLASSES[i % len(C.CLASSES)]
